@@ -30,6 +30,8 @@ func FuzzC19Metadata(f *testing.F) {
 		`{"perm_channels":[]}`, `{"perm_channels":null}`, `{"perm_channels":[{"port_id":"transfer","channel_id":"channel-2"}],"x":1}`,
 		`{"Perm_Channels":[{"port_id":"transfer","channel_id":"channel-0"}]}`, `{"perm_channels":[{"Port_ID":"transfer","channel_id":"channel-1"}]}`,
 		`{"perm_channels":[{"port_id":"transfer","channel_id":"channel-0"}],"perm_channels":[]}`, `[1]`, `"perm_channels"`, ``, "\x01\x02\x03",
+		`{"perm\u005fchannels":[{"port_id":"transfer","channel_id":"channel-0"}]}`,
+		`{"perm_channels":[{"port_id":"transfer","channel_id":"channel-0"},{"port_id":"nft-transfer","channel_id":"channel-0"}]}`,
 		`{"perm_channels":[{"port_id":"transfer","channel_id":"channel-0"}]} x`, `{"perm_channels":[{"port_id":"transfer","channel_id":"channel-0"}]}`,
 	}
 	for i, s := range seeds {
